@@ -64,13 +64,28 @@ def enqueuer_order(raw):
             return 'thread %s looks at the helper\'s futex word %s inside call_rcu() before it has enqueued its callback: a helper that goes to sleep between that look and the enqueue is not woken' % (t, p[2])
     return None
 
+def completion_put_last(raw):
+    """program order assumed by Futex/Completion.v (part 1): each holder's drop of its reference to a completion object (the decrement of cmpN+8) is its LAST access to that object (a helper thread may run several markers of one barrier, each with its own reference: the next marker starts with the countdown decrement)"""
+    dropped = set()
+    for l in raw.splitlines():
+        p = l.split()
+        if len(p) < 3 or not p[0].isdigit(): continue
+        t, k, loc = p[0], p[1], p[2]
+        m = re.match(r'(cmp\d+)\+(\d+)$', loc)
+        if not m or k in ('flush',): continue
+        if (t, m.group(1)) in dropped:
+            if k == 'addret' and m.group(2) == '0': dropped.discard((t, m.group(1)))      # the same thread runs another marker of that barrier (handed over from a destroyed helper): a reference of its own
+            else: return 'thread %s accesses %s after it has dropped its reference to that completion object (the reference must be dropped last: the object may be released by then)' % (t, loc)
+        if k == 'addret' and m.group(2) == '8' and p[3] == 'v=-1': dropped.add((t, m.group(1)))
+    return None
+
 def oracle(prog, s, cl, raw):
     ev = G.events(raw)
     m = re.search(r'^(\d+) UAF (\S+)', raw, flags=re.M)
     if m: return ('thread %s accessed %s: the completion object of an rcu_barrier() after its last reference was dropped and it was released' if m.group(2).startswith('cmp') else 'thread %s accessed %s: a call_rcu_data structure that had already been released (helper freed under a caller that had selected it)') % (m.group(1), m.group(2))
     if 'DEADLOCK' in raw: return 'stuck state: an application thread is blocked for ever (rcu_barrier / call_rcu_data_free never returns)'
     if 'STEP LIMIT' in raw: return 'live-lock: step limit reached'
-    so = oracles.sleeper_order(raw) or oracles.waker_order(raw) or enqueuer_order(raw)
+    so = oracles.sleeper_order(raw) or oracles.waker_order(raw) or enqueuer_order(raw) or completion_put_last(raw)
     if so: return so
     callidx, retcall, cbcall, cbret = {}, {}, {}, {}
     sections = []; open_ = {}; depth = {}; bars = []; bo = {}
